@@ -4,7 +4,7 @@ from __future__ import annotations
 
 import ast
 
-from sa.cfg import all_paths_pass, dominators, reachable, reaches
+from sa.cfg import all_paths_pass, dominators, reachable, reaches, specialize, test_atoms
 from sa.db import AnalysisError, ancestors, dotted, src, walk_local
 from sa.flow import backward_slice, defs_reaching, reaching_defs
 from sa.model import contains, enclosing
@@ -190,12 +190,25 @@ def run(ctx) -> None:
         for n in walk_local(f.node):
             if isinstance(n, ast.Raise) and n.exc is not None and isinstance(n.exc, ast.Attribute) and n.exc.attr == "error":
                 lp = enclosing(n, (ast.For,))
-                chain = [a for a in ancestors(n) if isinstance(a, ast.If) and contains(f.node, a)]
-                g = chain[0] if chain else None
-                tests = " and ".join(src(a.test) for a in chain)
-                okf = lp is not None and g is not None and "FAILED" in tests and not any(isinstance(x, ast.Call) and dotted(x.func) in ("reversed", "sorted") for x in ast.walk(lp.iter))
+                fcfg = ctx.cfg(f)
+                rn = [x for x in fcfg.nodes if x.kind == "stmt" and x.ast is n]
+                atoms_failed, atoms_mode = set(), set()
+                for t in fcfg.nodes:
+                    if t.kind == "test" and t.ast is not None:
+                        for a in test_atoms(t.ast):
+                            if isinstance(a, ast.Compare) and len(a.ops) == 1 and isinstance(a.ops[0], (ast.Eq, ast.Is)):
+                                txt = src(a).replace('"', "'")
+                                if "FAILED" in txt and ".status" in txt:
+                                    atoms_failed.add(src(a))
+                                if "error_handling" in txt and "'raise'" in txt:
+                                    atoms_mode.add(src(a))
+
+                def dead_when_false(atoms) -> bool:
+                    return bool(atoms) and bool(rn) and not any(x in reachable(fcfg.entry, specialize({a: False for a in atoms}, fcfg)) for x in rn)
+
+                okf = lp is not None and dead_when_false(atoms_failed) and not any(isinstance(x, ast.Call) and dotted(x.func) in ("reversed", "sorted") for x in ast.walk(lp.iter))
                 if f is smap:
-                    okf = okf and "error_handling == 'raise'" in tests.replace('"', "'")
+                    okf = okf and dead_when_false(atoms_mode)
                 rep.add("C10.R3", f"{f.qname}:first-failure@{_k(f, n)}", okf, f"{f.module.rel}:{n.lineno}", "raises the first FAILED item's own error, scanning in input order" if okf else "the raised error is not the first failed item's in input order")
 
     # ---- R5 ---------------------------------------------------------------------
